@@ -253,6 +253,47 @@ pub fn gen_skip_grammar(r: &mut Rng) -> Vec<GRule> {
     rules
 }
 
+/// grammars made of the shapes the optimizer passes look for (rotation chains, literal concatenation, common prefixes of a
+/// choice, `(x ~ y)* ~ x`), in rules of EVERY modifier - so that a pass applied to a rule type it must leave alone, or with the
+/// wrong idea about implicit whitespace, changes spans or acceptance - called from non-atomic and atomic rules, with trivia defined
+pub fn gen_opt_grammar(r: &mut Rng) -> Vec<GRule> {
+    use GE::*;
+    let lit = |r: &mut Rng| ["x", "y", "xy", "yx", "xx"][r.weighted(&[5, 5, 2, 1, 1])].to_string();
+    let atom = |r: &mut Rng| match r.below(6) { 0 => Ins(["X", "y"][r.below(2) as usize].into()), 1 => Id("ANY".into()), 2 => Range('x', 'y'), _ => Str(lit(r)) };
+    let b = |e: GE| Box::new(e);
+    let shape = |r: &mut Rng| -> GE {
+        let e = atom(r); let t1 = atom(r); let t2 = atom(r);
+        match r.below(10) {
+            0 => Cho(b(Seq(b(e.clone()), b(t1))), b(e)),                                   // (e ~ r) | e
+            1 => Cho(b(e.clone()), b(Seq(b(e), b(t1)))),                                   // e | (e ~ r)
+            2 => Cho(b(Seq(b(e.clone()), b(t1))), b(Seq(b(e), b(t2)))),                    // (e ~ r1) | (e ~ r2)
+            3 => Cho(b(Seq(b(t1), b(e.clone()))), b(Seq(b(t2), b(e)))),                    // common tail
+            4 => Seq(b(Rep(b(Seq(b(e.clone()), b(t1))))), b(e)),                           // (x ~ y)* ~ x
+            5 => Seq(b(Seq(b(Rep(b(Seq(b(e.clone()), b(t1))))), b(e))), b(Opt(b(t2)))),    // (x ~ y)* ~ x ~ tail?
+            6 => Seq(b(Seq(b(e), b(t1))), b(t2)),                                          // left-nested sequence
+            7 => Cho(b(Cho(b(e), b(t1))), b(t2)),                                          // left-nested choice
+            8 => Seq(b(Str(lit(r))), b(Seq(b(Ins(["X", "y"][r.below(2) as usize].into())), b(Str(lit(r)))))),   // literal runs
+            _ => Cho(b(Seq(b(e.clone()), b(Opt(b(t1))))), b(Seq(b(e), b(Rep(b(t2)))))),
+        }
+    };
+    let tys = [Ty::Normal, Ty::Silent, Ty::Silent, Ty::Atomic, Ty::Compound, Ty::NonAtomic];
+    let body1 = shape(r);
+    let body2 = if r.chance(1, 2) { shape(r) } else { Str(lit(r)) };
+    let tail = match r.below(4) { 0 => Str(lit(r)), 1 => Id("EOI".into()), 2 => Seq(b(Str(" ".into())), b(Str(lit(r)))), _ => Opt(b(Str(lit(r)))) };
+    let e0 = match r.below(4) { 0 => Id("r1".into()), 1 => Seq(b(Id("r1".into())), b(tail)), 2 => Seq(b(Id("r1".into())), b(Id("r2".into()))), _ => Rep(b(Id("r1".into()))) };
+    let mut rules = vec![
+        GRule { name: "r0".into(), ty: [Ty::Normal, Ty::Normal, Ty::Compound, Ty::Atomic, Ty::NonAtomic][r.below(5) as usize], e: e0 },
+        GRule { name: "r1".into(), ty: tys[r.below(6) as usize], e: body1 },
+        GRule { name: "r2".into(), ty: tys[r.below(6) as usize], e: body2 }];
+    match r.below(6) {
+        0 => {}
+        1 => rules.push(GRule { name: "COMMENT".into(), ty: Ty::Silent, e: Str("#".into()) }),
+        2 => { rules.push(GRule { name: "WHITESPACE".into(), ty: Ty::Silent, e: Str(" ".into()) }); rules.push(GRule { name: "COMMENT".into(), ty: Ty::Silent, e: Str("#".into()) }); }
+        _ => rules.push(GRule { name: "WHITESPACE".into(), ty: Ty::Silent, e: Str(" ".into()) }),
+    }
+    rules
+}
+
 /// all strings of length <= n over the alphabet
 pub fn all_strings(alpha: &[&str], n: usize) -> Vec<String> {
     let mut out = vec![String::new()];
